@@ -9,7 +9,8 @@ ID = "C11"
 LEVEL = "exploration"
 RULE = (
     "nx, ny in 4..9 (even and odd) x even mode counts 2..12 per axis x halo {0, None, 0.7dx, 1.6dx, 2dx} x {dispersion, footprint}: "
-    "thorough enumerates all 12 960 tuples (exhaustive over the stated range), quick a Latin subsample; each accepted tuple is "
+    "thorough enumerates all tuples of the wider range nx, ny in 4..11, modes 2..16 (40 960 tuples, exhaustive over that range), quick a "
+    "Latin subsample of the 4..9 / 2..12 range; each accepted tuple is "
     "checked for shape/coordinates, low-pass relation (halo=0), registration against pad/halo=0/crop (halo>0) and over-request "
     "equivalence; ValueError/IndexError are accepted outcomes and counted.  non-trivial = accepted tuple with truncation, a halo "
     "pad >= 1 or an odd size; distinct = distinct tuples"
@@ -18,7 +19,7 @@ ASSUMPTIONS = [
     "a mixed over-request (one axis above the padded size, one below) may either clamp that axis or set both to the padded size",
     "spectral comparisons at 1e-9 of the spectrum maximum; small well-conditioned column (G < 8)",
 ]
-MIN_NONTRIVIAL = {"quick": 400, "thorough": 5000}
+MIN_NONTRIVIAL = {"quick": 400, "thorough": 12000}
 TIMEOUT = {"quick": 900, "thorough": 7000}
 HALOS = ("zero", "none", "0.7dx", "1.6dx", "2dx")
 SIZES = range(4, 10)
@@ -27,8 +28,9 @@ MODES = range(2, 13, 2)
 
 def cases(tier, seed):
     out = []
-    for nx in SIZES:
-        for ny in SIZES:
+    sizes = SIZES if tier == "quick" else range(4, 12)
+    for nx in sizes:
+        for ny in sizes:
             for h in HALOS:
                 out.append({"nx": nx, "ny": ny, "halo": h, "tier": tier, "seed": seed})
     out_ = out
@@ -91,8 +93,9 @@ def run_case(case):
         if full[0] != "ok" or fullpad[0] != "ok":
             viol.append({"what": "over_request_rejected", "tuple": (nx, ny, hk, fp), "outcome": full[:2] if full[0] != "ok" else fullpad[:2]})
             continue
-        for mx in MODES:
-            for my in MODES:
+        modes_range = MODES if tier == "quick" else range(2, 17, 2)
+        for mx in modes_range:
+            for my in modes_range:
                 if tier == "quick" and (mx // 2 + 2 * (my // 2) + nx + ny + int(fp)) % 4 != 0:
                     continue
                 counters["tuples"] += 1
